@@ -43,6 +43,8 @@ enum Driving {
     Breaks(u64),
     /// FrameCount(1) + breakpoints at given instruction counts
     BreaksAt(Vec<u64>),
+    /// FrameCount(1) + breakpoints at program counter values (resumed at once)
+    BreaksPc(Vec<u16>),
 }
 
 #[derive(Clone, Copy, Debug)]
@@ -154,15 +156,18 @@ fn audio_hash(h: &mut u64, v: &[(f32, f32)]) {
 
 /// result: per checkpoint frame (core, video), final audio hash, samples
 struct Trace {
+    /// instruction count (debug-interface calls) at every frame boundary of this run
+    boundaries: Vec<u64>,
     points: Vec<(usize, u64, u64)>,
     audio: u64,
     samples: u64,
 }
 
-fn drive(scn: &Scenario, asset: AssetKind, drv: &Driving, ev: &Events, checkpoints: &[usize], total: usize, tag: u64) -> Result<Trace, String> {
+fn drive(scn: &Scenario, asset: AssetKind, drv: &Driving, ev: &Events, checkpoints: &[usize], total: usize, tag: u64, base_boundaries: &[u64]) -> Result<Trace, String> {
     let keys: Vec<ZXKey> = ZXKey::iter().collect();
     let mut m = build(scn, asset, tag);
-    let mut tr = Trace { points: vec![], audio: FNV_INIT, samples: 0 };
+    let mut tr = Trace { boundaries: vec![], points: vec![], audio: FNV_INIT, samples: 0 };
+    m.dbg().calls = 0;
     let mut frame = 0usize;
     let apply = |m: &mut Machine, frame: usize| {
         for (f, k, p) in ev.keys.iter() {
@@ -188,6 +193,8 @@ fn drive(scn: &Scenario, asset: AssetKind, drv: &Driving, ev: &Events, checkpoin
                 apply(&mut m, frame);
                 m.emu.emulate_frames(Duration::from_secs(100)).map_err(|e| format!("emulate_frames: {}", e))?;
                 frame += 1;
+                let calls = m.dbg().calls;
+                tr.boundaries.push(calls);
                 if *drain > 0 && frame % drain == 0 {
                     let a = m.drain_audio();
                     tr.samples += a.len() as u64;
@@ -225,28 +232,31 @@ fn drive(scn: &Scenario, asset: AssetKind, drv: &Driving, ev: &Events, checkpoin
             }
             set_stopwatch(SwScript::Zero);
         }
-        Driving::Breaks(_) | Driving::BreaksAt(_) => {
+        Driving::Breaks(_) | Driving::BreaksAt(_) | Driving::BreaksPc(_) => {
             m.emu.set_speed(EmulationMode::FrameCount(1));
             m.dbg().calls = 0;
             m.dbg().mode = match drv {
                 Driving::Breaks(k) => DbgMode::EveryK(*k),
                 Driving::BreaksAt(v) => DbgMode::AtCalls(v.clone()),
+                Driving::BreaksPc(v) => DbgMode::Set(v.clone()),
                 _ => unreachable!(),
             };
-            let mut prev = m.clock();
+            // Frame boundaries are located by instruction count: the reference run recorded how
+            // many instructions precede each boundary, and every FrameCount(1) call returns at the
+            // boundary at the latest (a breakpoint on the very instruction that ends a frame masks
+            // the Completed reason, so the stop reason cannot be used).
             let mut guard = 0u64;
             apply(&mut m, 0);
             while frame < total {
-                let r = m.emu.emulate_frames(Duration::from_secs(100)).map_err(|e| format!("emulate_frames: {}", e))?;
-                let now = m.clock();
-                let wrapped = now < prev || (r.stop_reason == EmulationStopReason::Completed);
-                prev = now;
+                m.emu.emulate_frames(Duration::from_secs(100)).map_err(|e| format!("emulate_frames: {}", e))?;
                 guard += 1;
-                if guard > 5_000_000 {
+                if guard > 50_000_000 {
                     return Err("breakpoint driving did not make progress".into());
                 }
-                if wrapped {
+                let calls = m.dbg().calls;
+                if frame < base_boundaries.len() && calls >= base_boundaries[frame] {
                     frame += 1;
+                    tr.boundaries.push(calls);
                     let a = m.drain_audio();
                     tr.samples += a.len() as u64;
                     audio_hash(&mut tr.audio, &a);
@@ -309,7 +319,9 @@ fn one_tuple(ctx: &Ctx, rng: &mut Rng, st: &mut St, case: u64) {
     checkpoints.dedup();
     let base_drv = Driving::PerFrame { drain: 1, sound: true, ay: true };
     let scn_name = format!("{:?}", scn);
-    let base = match crate::host::catch(|| drive(&scn, AssetKind::Buffer, &base_drv, &ev, &checkpoints, total, case * 16)) {
+    let all_frames: Vec<usize> = (1..=total).collect();
+    let dense = std::env::var("VERIF_C16_ALLFRAMES").is_ok();
+    let base = match crate::host::catch(|| drive(&scn, AssetKind::Buffer, &base_drv, &ev, if dense { &all_frames } else { &checkpoints }, total, case * 16, &[])) {
         Ok(Ok(t)) => t,
         Ok(Err(e)) => {
             ctx.violation("driving:error", &format!("{} failed under the reference driving: {}", scn_name, e), jobj! {"case"=>case});
@@ -332,6 +344,13 @@ fn one_tuple(ctx: &Ctx, rng: &mut Rng, st: &mut St, case: u64) {
     at.sort();
     at.dedup();
     alts.push(("breaks-at".into(), Driving::BreaksAt(at), AssetKind::Buffer, true));
+    // breakpoints on addresses where the emulator itself hooks in or that run every frame:
+    // tape trap (LD-BREAK 0x056B), interrupt entry, SA/LD-RET, keyboard scan, plus random ones
+    let mut pcs: Vec<u16> = vec![0x056B, 0x0038, 0x053F, 0x0556, 0x05E2, 0x02BF, 0x0066, 0x8000];
+    for _ in 0..6 {
+        pcs.push(rng.u16());
+    }
+    alts.push(("breaks-at-pcs".into(), Driving::BreaksPc(pcs), AssetKind::Buffer, true));
     alts.push(("sound-off".into(), Driving::PerFrame { drain: 1, sound: false, ay: true }, AssetKind::Buffer, false));
     alts.push(("ay-mix-off".into(), Driving::PerFrame { drain: 1, sound: true, ay: false }, AssetKind::Buffer, false));
     alts.push(("drain-every-3".into(), Driving::PerFrame { drain: 3, sound: true, ay: true }, AssetKind::Buffer, false));
@@ -344,12 +363,22 @@ fn one_tuple(ctx: &Ctx, rng: &mut Rng, st: &mut St, case: u64) {
     // quick: a random subset of 5; thorough: all
     if ctx.quick() {
         rng.shuffle(&mut alts);
+        // the breakpoint-on-hook-addresses driving always stays for tape scenarios
+        if matches!(scn, Scenario::TapeLoad { .. }) {
+            if let Some(i) = alts.iter().position(|a| a.0 == "breaks-at-pcs") {
+                alts.swap(0, i);
+            }
+        }
         alts.truncate(5);
     }
     for (i, (name, drv, asset, audio)) in alts.iter().enumerate() {
         st.tuples += 1;
         st.kinds.insert(format!("{}|{}", scn_name.split(' ').next().unwrap_or(""), name));
-        let t = match crate::host::catch(|| drive(&scn, *asset, drv, &ev, &checkpoints, total, case * 16 + 1 + i as u64)) {
+        let per_frame_capable = matches!(drv, Driving::PerFrame { .. } | Driving::Breaks(_) | Driving::BreaksAt(_) | Driving::BreaksPc(_));
+        if dense && !per_frame_capable {
+            continue;
+        }
+        let t = match crate::host::catch(|| drive(&scn, *asset, drv, &ev, if dense { &all_frames } else { &checkpoints }, total, case * 16 + 1 + i as u64, &base.boundaries)) {
             Ok(Ok(t)) => t,
             Ok(Err(e)) => {
                 ctx.violation(&format!("driving:{}:error", name), &format!("{} under driving '{}' failed: {}", scn_name, name, e), jobj! {"case"=>case});
@@ -400,6 +429,11 @@ pub fn run(ctx: &Ctx) -> Evidence {
         let mut st = St { tuples: 0, frames: 0, comparisons: 0, kinds: HashSet::new(), sample: vec![] };
         for i in 0..(n / shards).max(1) {
             let case = (sh * (n / shards).max(1) + i) as u64;
+            if let Ok(c) = std::env::var("VERIF_C16_CASE") {
+                if c.parse::<u64>().ok() != Some(case) {
+                    continue;
+                }
+            }
             let mut rng = Rng::fork(ctx.seed ^ 0xC16, case);
             one_tuple(ctx, &mut rng, &mut st, case);
         }
